@@ -151,6 +151,12 @@ Theorem C16_check_count_sound : forall bmax n k r,
 Proof. exact check_count_sound. Qed.
 Print Assumptions C16_check_count_sound.
 
+Theorem C16_check_row_sound : forall bmax n rs,
+  check_row bmax n rs = true ->
+  forall k, (0 <= k <= tri (Z.of_nat n))%Z -> nth (Z.to_nat k) rs 0%Z = count_spec bmax n k.
+Proof. exact check_row_sound. Qed.
+Print Assumptions C16_check_row_sound.
+
 Theorem C16_check_ncg_sound : forall nodes edges ak i k r,
   check_ncg nodes edges ak i k r = true ->
   let vs := induced_vs nodes ak i in
